@@ -388,6 +388,9 @@ std::string Preprocessor::expandMacros(const std::string &line) {
             if (macro.is_function_like) {
                 continue; // 関数マクロは後で実装
             }
+            if (name.empty()) {
+                continue; // -D=V などで空の名前が登録されても検索を進められないため無視する
+            }
 
             // マクロ名を検索して置換
             size_t pos = 0;
